@@ -70,3 +70,7 @@ claim("C11", "reference-model monitor: bridge model over reflectively synthesise
       "Host functions are synthesised with reflect.FuncOf/MakeFunc for signatures over 18 parameter kinds, variadic tails and leading contexts; every invocation records its context and arguments. Argument lists of length 0..n+2 over 25 argument values, with and without spread, are passed through real formulas (each argument wrapped in an order-recording call); the bridge model decides call vs reject and the value each parameter must receive; invocation count (1 or 0), received values, argument evaluation order, context identity, error wrapping with the function's name and number normalisation of returned Go numbers are compared.",
       "Trusts the 120-line bridge model as my reading of the statement; combinations it leaves open are skipped and counted.",
       "5/C11")
+claim("C19", "reference-model monitor: independent days-from-civil calendar, per-time-zone child processes",
+      "One child per local time zone (TZ set before start, 9 zones) evaluates date(y,m,d) for years 1-9999 with months/days from -40 to 60, the field extractors, millSecond, addDate, useTimezone and timeFormat on random instants and on instants around every DST transition of the zone between 1900 and 2100; civil fields, weekday, milliseconds, carry and formatting are computed independently (Hinnant's days-from-civil), instants are checked against local midnight / same clock time under the zone's offsets, unknown zones must be errors, now/toDay against the wall-clock bracket.",
+      "Trusts Go's time package for zone offsets only; the meaning of 'local midnight' on skipped/repeated midnights is the candidate-offset rule stated in the assumptions.",
+      "5/C19")
